@@ -8,7 +8,7 @@
 From VF Require Import Base.Prelude Gen.Enums Gen.Configs Gen.Policy Gen.Registry Gen.Checks
      Gen.MatDesc Gen.InstChecks Gen.Scopes Model.Recipe Model.Check Model.Graph
      Model.Plan Model.Perform Spec.WF Proofs.ListFacts Proofs.PerformStep Proofs.ModeProofs Proofs.PlanProofs
-     Proofs.UntouchedProofs Model.Insts Proofs.InstsCover Proofs.GroupNest Proofs.ReadersProofs Proofs.PerformInv Proofs.SkeletonInv Proofs.ReadersOrig Spec.LastOk Proofs.LastOkSound.
+     Proofs.UntouchedProofs Model.Insts Proofs.InstsCover Proofs.GroupNest Proofs.ReadersProofs Proofs.PerformInv Proofs.SkeletonInv Proofs.ReadersOrig Spec.LastOk Proofs.LastOkSound Model.Pipeline.
 
 (* (a) mode -> per-operand transformation, for EVERY config in one of the
    three modes (static-range: integer compute with an activation config;
@@ -422,6 +422,36 @@ Theorem C03_generated_last_instruction_is_read_by_exactly_the_listed_operators_s
                     readers_profile x' g' = moved_profile (i_tensor i0) (i_consumers i0) g0.
 Proof. exact last_instruction_readers_checked_skipping. Qed.
 Print Assumptions C03_generated_last_instruction_is_read_by_exactly_the_listed_operators_skipping_no_quantize.
+
+(* ... and for the whole pipeline `plan_checked ; insts_of_params ;
+   transform_graph` (the function correspondence E2 compares with the bytes
+   quantize() returns): for every recipe state, statistics and parameter
+   classification, when the pipeline returns (m', plans) the instruction lists
+   it went through are those generated from `plans`, and every one of them
+   that meets the decided hypotheses has its last inserted tensor read by
+   exactly the listed original operators of the INPUT model. *)
+Theorem C03_pipeline_last_instructions_are_read_by_exactly_the_listed_operators :
+  forall mk_cls matches rules scope_id m scopes stats m' plans,
+    Forall wf_sg (m_subgraphs m) -> uids_ok m ->
+    pipeline_cls mk_cls matches rules scope_id m scopes stats = Ok (m', plans) ->
+    exists tis,
+      insts_of_params m (map (to_ttp (mk_cls (terms_of plans))) plans) = Ok tis /\
+      transform_graph m tis = Ok m' /\
+      forall n, last_hypb m (map strip tis) n = true ->
+        exists pre ti0 post steps i0 k g0,
+          map strip tis = pre ++ ti0 :: post /\ length pre = n /\ ti_insts ti0 = steps ++ [i0] /\
+          ti_sg ti0 = Z.of_nat k /\ nth_opt (m_subgraphs m) k = Some g0 /\
+          exists x' g', nth_opt (m_subgraphs m') k = Some g' /\ ntens g0 <= x' /\
+                        readers_profile x' g' = moved_profile (i_tensor i0) (i_consumers i0) g0.
+Proof.
+  intros mk_cls matches rules scope_id m scopes stats m' plans Hwf Hu H. unfold pipeline_cls in H.
+  destruct (plan_checked_cls mk_cls matches rules scope_id m scopes stats) as [r|]; cbn [bind] in H; [|discriminate].
+  match type of H with (tis <- ?x ;; _) = _ => destruct x as [tis|] eqn:Ei end; cbn [bind] in H; [|discriminate].
+  destruct (transform_graph m tis) as [m2|] eqn:Et; cbn [bind] in H; [|discriminate].
+  inversion H; subst. exists tis. split; [exact Ei|]. split; [exact Et|].
+  intros n Hn. exact (last_instruction_readers_checked_skipping m _ tis n m' Hwf Hu Ei Hn Et).
+Qed.
+Print Assumptions C03_pipeline_last_instructions_are_read_by_exactly_the_listed_operators.
 
 (* the performer never acts on a NO_QUANTIZE instruction: dropping them from
    every list leaves the whole run unchanged *)
